@@ -454,6 +454,18 @@ def sec_switches(rep):
     parallel(rep, items, switch_worker, chunk=1)
 
 
+def sec_apply_pdf(rep):
+    """Power bookkeeping of the contraction that the RGE statement is about: ESFResult.apply_pdf
+    multiplies the (k,0,i,j) tensor by a_s(xiR Q)^k ln(1/xiR^2)^i ln(1/xiF^2)^j and evaluates the PDF
+    at xiF^2 Q2 (contract shared with C17, re-discharged here)."""
+    from . import c17
+
+    n0 = len(rep.obs)
+    c17.sec_result_apply(rep)
+    for o in rep.obs[n0:]:
+        o.name = o.name.replace("C17/", "C05/apply_pdf/", 1)
+
+
 def sec_selfcheck(rep, seed):
     """Canary: a wrong binomial sign in apply_diff_scale_variations must break the RGE identity."""
     from yadism.esf import scale_variations as sv
@@ -476,7 +488,7 @@ def run(rep, tier, seed, only=None):
         "one-node grid with formal operators: the code uses the operators only linearly (no operator x operator product is computed at run time), so the identities lift to every grid size",
     )
     rep.stub("eko.beta -> symbolic beta0/beta1", "conv.convolve_vector -> symbolic raw coefficients c_o", "Combiner -> one abstract kernel", "ScaleVariations.operators pre-filled with formal 1x1 operators (compute_raw's cache branch)")
-    for nm, f in (("tables", sec_tables), ("rge", sec_rge), ("switches", sec_switches)):
+    for nm, f in (("tables", sec_tables), ("rge", sec_rge), ("switches", sec_switches), ("apply_pdf", sec_apply_pdf)):
         if only and only not in nm:
             continue
         rep.add(guarded(f"C05/{nm}", lambda f=f: (f(rep), [])[1]))
